@@ -17,6 +17,7 @@ import time
 from concurrent.futures import ThreadPoolExecutor
 
 ROOT = os.path.dirname(os.path.dirname(os.path.abspath(__file__)))
+REPO = os.environ.get("VERIF_REPO", "/repo")
 CACHE = os.path.join(ROOT, ".cache")
 CARGO_TARGET = os.path.join(CACHE, "cargo-target")
 NPROC = 16
@@ -33,6 +34,7 @@ def sh(cmd, timeout=None, cwd=None, env=None, input=None):
     e.update({"CARGO_NET_OFFLINE": "true", "CARGO_TARGET_DIR": CARGO_TARGET})
     if env:
         e.update(env)
+    e["VERIF_REPO"] = REPO
     try:
         p = subprocess.run(cmd, shell=isinstance(cmd, str), cwd=cwd or ROOT, env=e, input=input,
                            stdout=subprocess.PIPE, stderr=subprocess.STDOUT, timeout=timeout,
@@ -132,7 +134,7 @@ class Check:
         hdir = os.path.join(ROOT, "harness")
         lock = os.path.join(hdir, "Cargo.lock")
         try:
-            src = open("/repo/Cargo.lock").read()
+            src = open(os.path.join(REPO, "Cargo.lock")).read()
             if not os.path.exists(lock) or open(lock).read() != src:
                 # keep our own resolved lock when it already covers the repo's (cargo adds dsverif)
                 if not os.path.exists(lock):
